@@ -44,6 +44,13 @@ Tie (three parts, all on the working tree on every run):
     CALLS IN BOTH DIRECTIONS (harness/c11_duplex.py): every class is served while 1..3 tasks of the served side have calls of their
     own outstanding towards the peer; schedules of (outgoing call / peer request of every outcome kind / the peer's answer / stray
     response) events; the peer requests are judged and replayed through the model like all others, the calls by `DUP.judge_calls`.
+    A LISTENER OVER ITS LIFETIME (harness/c11_listener.py): the real `rmc.serve_on_transport` / `rmc.serve` over an in-memory transport
+    accept several connections, concurrently and one after the other; handlers of the listener's classes attach instances of further classes
+    to THEIR connection (`client.register_server`); requests of every outcome kind for every class arrive on connections that have / have
+    not registered it. Oracle = the property's per-connection registry (`LST.plan`): NotImplemented and no handler where the connection has
+    no server; the connection's own object and client where it has; a second client's registration succeeds, a second registration on one
+    connection raises inside the handler; a later connection starts with the listener's servers only; nothing is sent on other connections.
+    Every connection is replayed through `serveStep`, every whole life through the Lean listener model (`RmcListener.step`, lines lnew …).
     ORDER OF FIRST USE of structure classes (harness/c11_firstuse.py): ancestor-then-derived / derived-then-ancestor / alone, for every
     (ancestor, derived) pair of structure classes, each sequence in an interpreter that has used no structure yet; oracle = the
     reference reader over the response body vs the Python value the handler returned (no library encoder / decoder involved).
@@ -57,6 +64,7 @@ import rmc_results as RES
 import rmc_frames as FR
 import c11_objects as OBJ
 import c11_duplex as DUP
+import c11_listener as LST
 from nintendo.nex import errors, settings as nexsettings
 
 LEVEL = "proof"
@@ -551,6 +559,110 @@ def duplex_sessions(srvinfos, rng, tier, minor, all_codes):
     return out
 
 
+# ------------------------------------------------------------------ a LISTENER with several connections (harness/c11_listener.py)
+def listener_sessions(srvinfos, n_listener, rng, tier, minor, all_codes):
+    """lifetimes of one listener (`rmc.serve_on_transport` / `rmc.serve` over the in-memory transport): connections are accepted,
+    served and closed, concurrently and one after the other; handlers of the listener's classes (`srvinfos[:n_listener]`) attach
+    instances of the per-connection classes (`srvinfos[n_listener:]`) to THEIR connection with `client.register_server`; requests of
+    every outcome kind for every class arrive on connections that have / have not registered it. -> one session per connection in
+    the format of the other families (cases = that connection's requests in order; results[0]["listener"] = the whole life)"""
+    quick = tier == "quick"
+    pools = [object_cases(si, i, rng, minor, all_codes, 2 if quick else 4, None, "listener") for i, si in enumerate(srvinfos)]
+    for i, pool in enumerate(pools):
+        for c in pool: c["cls_idx"] = i
+    unknown = [dict(c, kind="listener:" + c["kind"], cls_idx=None) for c in unknown_protocol_cases(srvinfos, rng, 2, minor)]
+    xs = list(range(n_listener, len(srvinfos)))
+    def base_of(c): return c["kind"].split(":", 1)[1]
+    gate_src = [c for i in range(n_listener) for c in pools[i] if base_of(c) in ("ok", "raise:rmc", "stub") and not srvinfos[i]["noresponse"]] or \
+               [c for i in range(n_listener) for c in pools[i] if base_of(c) in ("ok", "raise:rmc", "stub")]
+    def again(case, **kw):
+        cid = rng.choice([0, 1, M32]) if rng.random() < 0.1 else rng.randrange(1 << 32)
+        c = dict(case, call_id=cid, datagram=R.make_request(case["protocol"], case["method"], cid, bytes.fromhex(case["body"])).hex())
+        c.update(kw); c["script"] = dict(c["script"])
+        return c
+    class Life:
+        def __init__(self): self.events, self.open_, self.next = [], [], 0
+        def filler(self):
+            if self.open_ and rng.random() < 0.35:
+                c = rng.choice(self.open_)
+                pool = rng.choice(pools + [unknown]) or pools[0]
+                if pool: self.events.append({"ev": "req", "conn": c, "case": again(rng.choice(pool))})
+        def open(self):
+            c = self.next; self.next += 1; self.open_.append(c); self.events.append({"ev": "open", "conn": c}); self.filler(); return c
+        def close(self, c):
+            self.open_.remove(c); self.events.append({"ev": "close", "conn": c}); self.filler()
+        def req(self, c, k, bases=None):
+            pool = [x for x in pools[k] if bases is None or base_of(x) in bases] or pools[k]
+            if pool: self.events.append({"ev": "req", "conn": c, "case": again(rng.choice(pool))})
+            self.filler()
+        def gate(self, c, ks):
+            if not gate_src: return
+            src = rng.choice(gate_src)
+            self.events.append({"ev": "req", "conn": c, "case": again(src, script=dict(src["script"], register=list(ks)))})
+            self.filler()
+    OK = ("ok",)
+    lives = []
+    if xs:
+        x, y = xs[0], xs[-1]
+        L = lambda: rng.randrange(n_listener)
+        # concurrent connections: A registers x; B (open at the same time) has not, then registers its own; C comes later
+        f = Life(); a = f.open(); b = f.open()
+        f.req(a, x, OK); f.gate(a, [x]); f.req(a, x, OK); f.req(b, x, OK); f.req(b, L()); f.req(b, x); f.gate(b, [x]); f.req(b, x, OK); f.req(a, x, OK)
+        f.close(a); f.req(b, x, OK); c = f.open(); f.req(c, x, OK); f.req(c, L(), OK); f.gate(c, [x, y] if y != x else [x]); f.req(c, y, OK); f.req(b, y, OK)
+        f.close(b); f.req(c, x); f.close(c); lives.append(f)
+        # one after the other: the registration ends with its connection
+        f = Life(); a = f.open(); f.gate(a, [x]); f.req(a, x, OK); f.req(a, x); f.close(a)
+        b = f.open(); f.req(b, x, OK); f.req(b, L(), OK); f.gate(b, [x]); f.req(b, x, OK); f.close(b)
+        c = f.open(); f.req(c, x, OK); f.req(c, y, OK); f.close(c); lives.append(f)
+        # the same protocol twice on ONE connection (the handler raises), once each on two
+        f = Life(); a = f.open(); f.gate(a, [x]); f.gate(a, [x]); f.req(a, x, OK); f.req(a, L(), OK); b = f.open()
+        f.gate(b, [y, x] if y != x else [x]); f.gate(b, [x]); f.req(b, x, OK); f.req(b, y, OK); f.req(a, y, OK); f.gate(a, [rng.randrange(n_listener)])
+        f.req(a, x, OK); f.close(b); f.req(a, x); f.close(a); lives.append(f)
+    # random lives
+    for _ in range(2 if quick else 10):
+        f = Life()
+        f.open()
+        for _ in range(rng.randint(25, 60)):
+            r = rng.random()
+            if (r < 0.12 and len(f.open_) < 3 and f.next < 6) or not f.open_:
+                if f.next >= 8: break
+                f.open()
+            elif r < 0.2: f.close(rng.choice(f.open_))
+            elif r < 0.4 and xs: f.gate(rng.choice(f.open_), rng.sample(xs, rng.randint(1, len(xs))))
+            elif r < 0.8 and xs: f.req(rng.choice(f.open_), rng.choice(xs), OK if rng.random() < 0.6 else None)
+            else: f.req(rng.choice(f.open_), rng.randrange(len(srvinfos)))
+        for c in list(f.open_):
+            if rng.random() < 0.7: f.close(c)
+        lives.append(f)
+    out = []
+    for n, f in enumerate(lives):
+        events = LST.plan(f.events, srvinfos, n_listener)
+        for ev in events:
+            if ev["ev"] != "req": continue
+            case = ev["case"]
+            exp = case["lst"]["expect"]
+            where = ("listener-gate-refused" if any(w == "dup" for _, w in exp) else "listener-gate" if exp else
+                     "listener" if case.get("cls_idx") is None or case["cls_idx"] < n_listener else
+                     "listener-own" if case["srv"] is not None else "listener-not-registered-here")
+            case["kind"] = where + ":" + base_of(case)
+        api = LST.APIS[(n + minor) % 2]
+        recs, info = LST.run_listeners([(api, srvinfos, n_listener, events, minor)])[0]
+        bad = LST.judge(events, recs, srvinfos, n_listener)
+        if not bad and info["served"] != [[1, 10, False]]:
+            bad = ("listen", "rmc.%s asked the transport to serve %s, expected PRUDP port 1, stream type 10, no key" % (api, info["served"]), 0)
+        conns = list(dict.fromkeys(ev["conn"] for ev in events if ev["ev"] == "req"))
+        life = {"api": api, "n_listener": n_listener, "events": events, "bad": bad, "recs": recs,
+                "others": [[k, r] for k, (e, r) in enumerate(zip(events, recs)) if e["ev"] != "req"],
+                "connections": sum(1 for e in events if e["ev"] == "open")}
+        for c in conns:
+            cases = [e["case"] for e in events if e["ev"] == "req" and e["conn"] == c]
+            results = [r for e, r in zip(events, recs) if e["ev"] == "req" and e["conn"] == c]
+            for r in results: r.setdefault("sent", []); r.setdefault("loop", "alive")
+            results[0]["listener"] = dict(life, primary=(c == conns[0]))
+            out.append((srvinfos, cases, results, minor, {}, None))
+    return out
+
+
 def _worker(job):
     """job = (kind, srvinfos, seed, tier, minor, all_codes, extra) -> (srvinfos, cases, results, minor)"""
     kind, srvinfos, seed, tier, minor, all_codes, extra = job
@@ -558,6 +670,8 @@ def _worker(job):
     _SEEN_SLOTS.clear()
     if kind == "duplex":
         return duplex_sessions(srvinfos, rng, tier, minor, all_codes)
+    if kind == "listener":
+        return listener_sessions(srvinfos, extra, rng, tier, minor, all_codes)
     if kind == "server":
         cases = unknown_protocol_cases(srvinfos, rng, 2, minor) + cases_for_server(srvinfos[0], 0, rng, tier, minor, all_codes)
         jobs = [(srvinfos, cases, minor)]
@@ -845,6 +959,55 @@ def real_dispatch(srvinfos, res):
     return "%s:%s:%s" % (si["protocol"], h[0][1], u)
 
 
+def listener_table(evs, srvinfos, n_listener):
+    """the per-connection classes the connection of the LAST event has registered (per the property) when that event arrives"""
+    c, mine = evs[-1]["conn"], []
+    for e in evs[:-1]:
+        if e["conn"] != c: continue
+        if e["ev"] == "open": mine = []
+        elif e["ev"] == "req": mine += [j for j, w in e["case"]["lst"]["expect"] if w == "ok"]
+    return mine
+
+
+_SHRUNK = {"request": 0, "listener": 0}      # lives minimised for the report (the first three of each kind)
+
+
+def shrink_life(srvinfos, life, evs, minor, key, listener_side):
+    """a shorter life of the listener that still ends in the same verdict (whole connections dropped, then single requests /
+    closes; every candidate is planned anew and run on the real listener); at most ~200 runs"""
+    import copy
+    n, api, budget = life["n_listener"], life["api"], [200]
+    def failing(cand):
+        if budget[0] <= 0: return None
+        budget[0] -= 1
+        cand = copy.deepcopy(cand)
+        try:
+            LST.plan(cand, srvinfos, n)
+            recs, _ = LST.run_listeners([(api, srvinfos, n, cand, minor)])[0]
+        except Exception:
+            return None
+        if listener_side:
+            bad = LST.judge(cand, recs, srvinfos, n)
+            return cand if bad and bad[0] == key and bad[2] == len(cand) - 1 else None
+        if recs[-1].get("skipped"): return None
+        c = cand[-1]["case"]
+        bad = judge_case(c, srvinfos[c["srv"]] if c["srv"] is not None else None, recs[-1])
+        return cand if bad and bad[0] == key else None
+    cur = failing(evs)
+    if cur is None: return evs
+    last = cur[-1]["conn"]
+    for c in sorted({e["conn"] for e in cur} - {last}):
+        got = failing([e for e in cur if e["conn"] != c])
+        if got: cur = got
+    i = len(cur) - 2
+    while i >= 0:
+        if cur[i]["ev"] != "open":
+            got = failing(cur[:i] + cur[i + 1:])
+            if got: cur = got
+        i -= 1
+    return cur
+
+
 def shrink_history(srvinfos, seq, minor, fresh_last):
     """smallest sub-sequence (ending in the same request) that still makes the last answer differ from the fresh one"""
     def differs(sub):
@@ -986,6 +1149,9 @@ def run(ctx):
                 "requests and the peer's answers, answers before / between / after the requests, in and out of call order) "
                 "x the ORDER OF FIRST USE of structure classes in the process (every (ancestor, derived) pair of structure classes: ancestor first / derived first / each alone, every way "
                 "of using a class - returned, taken, in an anydata holder -, each sequence in an interpreter that has used no structure yet); "
+                "x the LISTENER the connection belongs to (rmc.serve / rmc.serve_on_transport over an in-memory transport: up to 8 connections per life, open at once and one "
+                "after the other; handlers attaching servers to their own connection with register_server - once, twice, on two connections, a protocol of the listener; "
+                "requests for a protocol on connections that registered it / did not / were accepted after the registering one closed); "
                 "each request goes through the real RMCClient.start loop and through the Lean model; "
                 "a case is distinct per (class, method, kind, script, body)")
     ctx.assumptions.append("which `except`/`isinstance` clause a given Python exception class matches is modelled (Exc), exercised with subclasses and "
@@ -1037,6 +1203,16 @@ def run(ctx):
         nr = next((x for x in nores[(i + ctx.seed) % max(1, len(nores)):] + nores if x["protocol"] != s["protocol"]), None)
         cfg = (3 if (i + ctx.seed) % 2 else 0) + 100 * ((i + ctx.seed) % len(R.NEX_VERSIONS))
         jobs.append(("duplex", [s] + ([nr] if nr else []), rng.randrange(1 << 30), ctx.tier, cfg, all_codes, None))
+    # a LISTENER with several connections and per-connection registration: every class is once the listener's class (beside a second
+    # one) while instances of two other classes are attached by handlers to their own connections
+    for i, s in enumerate(servers):
+        others = [x for x in rng.sample(servers, len(servers)) if x["protocol"] != s["protocol"]]
+        pick, used = [s], {s["protocol"]}
+        for x in others:
+            if x["protocol"] not in used and len(pick) < 4 and (len(pick) != 1 or any(m["supported"] for m in x["methods"])):
+                pick.append(x); used.add(x["protocol"])
+        cfg = (3 if (i + ctx.seed) % 2 else 0) + 100 * ((i + ctx.seed) % len(R.NEX_VERSIONS))
+        jobs.append(("listener", pick, rng.randrange(1 << 30), ctx.tier, cfg, all_codes, min(2, len(pick) - 1)))
     par = min(16, os.cpu_count() or 1)
     import threading
     fu_box = {}
@@ -1055,7 +1231,8 @@ def run(ctx):
     gids = {}                   # (structure key, nex.version) -> id of its layout in the driver
     for sid, (srvinfos, cases, results, minor, fresh, export) in enumerate(sessions):
         lines.append("clear"); index.append(None)
-        for si in srvinfos:
+        # (a connection of a listener starts with the listener's servers; what its handlers register is added when they have run)
+        for si in (srvinfos[:cases[0]["lst"]["n_listener"]] if cases and cases[0].get("lst") else srvinfos):
             lines.append(srv_line(si)); index.append(None)
         ids = None
         if export:
@@ -1071,6 +1248,8 @@ def run(ctx):
         for cid, (case, res) in enumerate(zip(cases, results)):
             si = srvinfos[case["srv"]] if case["srv"] is not None else None
             m = next((x for x in si["methods"] if x["id"] == case["method"]), None) if si else None
+            for j in (case.get("lst") or {}).get("model_add", []):
+                lines.append(srv_line(srvinfos[j])); index.append(None)
             ut = user_token(case["script"], m)
             if ut is None and case["script"]["mode"] == "wrongpos":
                 sc = case["script"]
@@ -1101,9 +1280,37 @@ def run(ctx):
                 lines.append("sreq %s %s %s" % (case["datagram"], ex, ut)); index.append((sid, cid))
             if not res.get("skipped"):
                 lines.append("inv %s %s" % (case["datagram"], ex)); index.append((sid, cid, "inv"))
+    # the lives of the listeners through the Lean LISTENER model (RmcListener.step: the driver keeps the table of every connection
+    # itself): accept / close / every request / every register_server call of a handler, in the order of the life
+    llines, lindex = [], []
+    for sid, (srvinfos, cases, results, minor, fresh, export) in enumerate(sessions):
+        life = results[0].get("listener") if results else None
+        if not life or not life["primary"]: continue
+        llines.append("clear"); lindex.append(None)
+        for si in srvinfos[:life["n_listener"]]:
+            llines.append(srv_line(si)); lindex.append(None)
+        llines.append("lnew"); lindex.append(None)
+        for ev, rec in zip(life["events"], life["recs"]):
+            c = ev["conn"]
+            if ev["ev"] != "req":
+                if not rec.get("skipped"): llines.append("%s %d" % ("lacc" if ev["ev"] == "open" else "lclose", c)); lindex.append(None)
+                continue
+            if rec.get("skipped"): continue
+            case = ev["case"]
+            si = srvinfos[case["srv"]] if case["srv"] is not None else None
+            m = next((x for x in si["methods"] if x["id"] == case["method"]), None) if si else None
+            ut = user_token(case["script"], m)
+            if ut is None:
+                o = rec.get("observed") or "ret:-"
+                if not o.startswith("ret:"): o = "ret:-"
+                ut = "ret:good:" + o
+            llines.append("lreq %d %s %s %s" % (c, case["datagram"], case["extract"], ut)); lindex.append((sid, case, rec, None, None))
+            for n_reg, (j, want) in enumerate(case["lst"]["expect"]):
+                llines.append("lreg %d %s" % (c, srv_line(srvinfos[j])[4:])); lindex.append((sid, case, rec, want, n_reg))
     t_a = _t.time()
-    outs = ctx.driver().batch(lines + wlines)
+    outs = ctx.driver().batch(lines + wlines + llines)
     ctx.extra["seconds_in_the_lean_driver"] = round(_t.time() - t_a, 1)
+    louts, outs = outs[len(lines) + len(wlines):], outs[:len(lines) + len(wlines)]
     wouts, outs = outs[len(lines):], outs[:len(lines)]
     n_diff, first = 0, None
     n_wrong = n_wrong_incompat = 0
@@ -1125,6 +1332,35 @@ def run(ctx):
         if o != real_t:
             n_diff += 1
             if first is None: first = (case, res, line + " -> " + o, "the real validation / encoder: " + real_t, minor, [s["class"] for s in srvinfos])
+    n_lreq = n_lreg = 0
+    for line, o, ix in zip(llines, louts, lindex):
+        if ix is None:
+            if o != "ok": raise vf.InfraError("driver rejected %r: %s" % (line[:80], o))
+            continue
+        sid, case, rec, want, n_reg = ix
+        srvinfos, minor = sessions[sid][0], sessions[sid][3]
+        if o == "bad-op": raise vf.InfraError("driver rejected %r" % line[:120])
+        if want is not None:
+            # a register_server call: the oracle's per-connection table (LST.plan) and Lean's (RmcListener.step) are twins ...
+            if o != want: raise vf.InfraError("the oracle's per-connection registry and Lean's RmcListener.step differ on %r: %s / %s" % (line[:120], want, o))
+            n_lreg += 1
+            got = rec.get("registered") or []
+            real_r = ("ok" if got[n_reg][1] == "ok" else "dup") if n_reg < len(got) else "not-called"
+            if rec.get("called") and real_r != o:     # ... and the model must predict what the real register_server did
+                n_diff += 1
+                if first is None: first = (case, rec, line[:200] + " -> " + o, "the real register_server: " + real_r, minor, [s["class"] for s in srvinfos])
+            continue
+        n_lreq += 1
+        hres, _, reaction = o.partition(" => ")
+        real = ("propagate" if rec["loop"] != "alive" else "silent" if not rec["sent"] else
+                "send " + rec["sent"][0] if len(rec["sent"]) == 1 else "multi %d" % len(rec["sent"]))
+        real_h = rec["observed"] if rec["observed"] is not None else "nosrv"
+        if case["script"]["mode"] == "ok" and rec["value_error"]: continue
+        if hres != real_h or reaction != real:
+            n_diff += 1
+            if first is None: first = (case, rec, "listener model (connection %d): %s" % (case["lst"]["conn"], o), real_h + " => " + real, minor, [s["class"] for s in srvinfos])
+    ctx.extra["listener_requests_answered_by_the_lean_listener_model"] = n_lreq
+    ctx.extra["register_server_calls_replayed_through_the_lean_listener_model"] = n_lreg
     n_cases = n_fresh = n_after_fail = n_inv = n_rq = n_obj = n_falsy = n_slow = 0
     rq_tags = collections.Counter()
     for line, o, ix in zip(lines, outs, index):
@@ -1193,6 +1429,17 @@ def run(ctx):
                           "RMC server: %s [calls in both directions on one connection; schedule: %s]" % (bad[1], DUP.describe(evs)),
                           {"duplex": evs, "case": case, "minor_version": minor, "registered": ["%s.%s" % (s["module"], s["class"]) for s in srvinfos],
                            "real": res, "model": o, "how": "harness/corr_C11.py replay(): the schedule (harness/c11_duplex.py) on one connection; its last event is the judged request"})
+        elif bad and case.get("lst") is not None:
+            life = next(r["listener"] for r in results if r.get("listener"))
+            evs = life["events"][:case["lst"]["event"] + 1]
+            if _SHRUNK["request"] < 3: _SHRUNK["request"] += 1; evs = shrink_life(srvinfos, life, evs, minor, bad[0], False)
+            ctx.violation("c11:%s:%s" % (bad[0], case["kind"].split(":")[0]),
+                          "RMC listener (rmc.%s, %d connection(s) so far; the connection's servers when the request arrived: %s): %s [life of the listener: %s]"
+                          % (life["api"], sum(1 for e in evs if e["ev"] == "open"),
+                             "the listener's" + "".join(" + " + srvinfos[j]["class"] for j in listener_table(evs, srvinfos, life["n_listener"])), bad[1], LST.describe(evs)),
+                          {"listener": {"api": life["api"], "n_listener": life["n_listener"], "events": evs}, "case": evs[-1]["case"], "minor_version": minor,
+                           "registered": ["%s.%s" % (s["module"], s["class"]) for s in srvinfos], "real": {k: v for k, v in res.items() if k != "listener"}, "model": o,
+                           "how": "harness/corr_C11.py replay(): the life of the listener (harness/c11_listener.py) up to the judged request, which is its last event"})
         elif bad:
             ctx.violation("c11:%s:%s" % (bad[0], case["kind"].split(":")[0]), "RMC server: " + bad[1],
                           {"case": case, "minor_version": minor, "registered": ["%s.%s" % (s["module"], s["class"]) for s in srvinfos],
@@ -1252,6 +1499,32 @@ def run(ctx):
             ctx.violation("c11:duplex:%s" % key, "RMC connection with calls in both directions: %s [schedule: %s]" % (why, DUP.describe(evs)),
                           {"duplex": evs, "judge": "calls", "minor_version": minor, "registered": ["%s.%s" % (s["module"], s["class"]) for s in srvinfos],
                            "how": "harness/corr_C11.py replay(): the schedule (harness/c11_duplex.py) on one connection, judged by c11_duplex.judge_calls"})
+    # the LISTENER side of the lives with several connections
+    n_lst = n_lst_conn = n_lst_req = n_lst_gate = n_lst_refused = n_lst_own = n_lst_nothere = 0
+    for srvinfos, cases, results, minor, fresh, export in sessions:
+        life = results[0].get("listener") if results else None
+        if life is None: continue
+        n_lst_req += len(cases)
+        for c in cases:
+            k = c["kind"].split(":")[0]
+            n_lst_gate += k == "listener-gate"; n_lst_refused += k == "listener-gate-refused"; n_lst_own += k == "listener-own"; n_lst_nothere += k == "listener-not-registered-here"
+        if not life["primary"]: continue
+        n_lst += 1; n_lst_conn += life["connections"]
+        if life["bad"]:
+            key, why, k = life["bad"]
+            evs = life["events"][:k + 1]
+            if _SHRUNK["listener"] < 3: _SHRUNK["listener"] += 1; evs = shrink_life(srvinfos, life, evs, minor, key, True)
+            ctx.violation("c11:listener:%s" % key, "RMC listener (rmc.%s): %s [life of the listener: %s]" % (life["api"], why, LST.describe(evs)),
+                          {"listener": {"api": life["api"], "n_listener": life["n_listener"], "events": evs}, "judge": "listener", "minor_version": minor,
+                           "registered": ["%s.%s" % (s["module"], s["class"]) for s in srvinfos],
+                           "how": "harness/corr_C11.py replay(): the life of the listener (harness/c11_listener.py), judged by c11_listener.judge"})
+    ctx.extra["listener_lives_with_several_connections"] = n_lst
+    ctx.extra["connections_accepted_by_those_listeners"] = n_lst_conn
+    ctx.extra["requests_on_those_connections"] = n_lst_req
+    ctx.extra["requests_whose_handler_registered_servers_on_its_own_connection"] = n_lst_gate
+    ctx.extra["requests_whose_handler_registered_a_protocol_its_connection_already_has"] = n_lst_refused
+    ctx.extra["requests_for_a_protocol_the_connection_registered_for_itself"] = n_lst_own
+    ctx.extra["requests_for_a_protocol_only_other_connections_registered"] = n_lst_nothere
     ctx.extra["connections_with_calls_in_both_directions"] = n_dup
     ctx.extra["outgoing_calls_on_those_connections"] = n_dup_calls
     ctx.extra["peer_requests_on_those_connections"] = n_dup_req
@@ -1311,6 +1584,18 @@ def replay(ctx, path):
             for st, x in zip(r["firstuse_other"]["steps"], b.get("steps", [])): print("other order: %s [%s %s] -> %s %s" % (st["user"], st["way"], st["cls"], x.get("sent"), x["problems"] or ""))
             if a["steps"][r["step"]].get("sent") != b["steps"][r["step_other"]].get("sent"): bad = True; print("VIOLATION order-dependence")
         if bad: print("VIOLATION", [x["problems"] for x in a.get("steps", [])] or a.get("error"))
+        return 1 if bad else 0
+    if "listener" in r:
+        L = r["listener"]
+        evs = L["events"]
+        recs, info = LST.run_listeners([(L["api"], regs, L["n_listener"], evs, r.get("minor_version", 0))])[0]
+        for e, x in zip(evs, recs): print(LST.describe([e]), "->", {k: x.get(k) for k in ("sent", "state", "hang", "elsewhere", "owners", "registered", "skipped") if x.get(k)})
+        bad = LST.judge(evs, recs, regs, L["n_listener"])
+        if r.get("judge") != "listener" and not bad and evs[-1]["ev"] == "req":
+            c = evs[-1]["case"]
+            if recs[-1].get("skipped"): bad = ("skipped", "the connection's handler had ended")
+            else: bad = judge_case(c, regs[c["srv"]] if c["srv"] is not None else None, recs[-1])
+        if bad: print("VIOLATION", bad)
         return 1 if bad else 0
     if "duplex" in r:
         evs = r["duplex"]
